@@ -178,3 +178,19 @@ move_case!(h15d_memmove_shared_up3, 1, 4, 20, false);
 // @domain ∀ b∈u8^24, ∀ count≤16: memmove_naive(AtomicBytes(buf), 0, 8, count)
 // @claim the result equals the sequential forward byte copy buf[8+i] = buf[i] (the behaviour %TypedArray%.prototype.slice relies on)
 move_case!(h15d_memmove_naive_shared_up8, 0, 8, 16, true);
+
+// @harness h15d_memmove_shared_up8_off1 tier=quick props=C15,C02
+// @bounds from=1, to=9 (same misalignment 1, destination 8 above the source: the backward path with a head, possibly no full chunk), ∀ count ≤ 15
+// @domain ∀ b∈u8^24, ∀ count≤15: memmove(AtomicBytes(buf), 1, 9, count)
+// @claim as h15d_memmove_shared_up8 (true memmove semantics when source and destination overlap by count−8 bytes)
+move_case!(h15d_memmove_shared_up8_off1, 1, 9, 15, false);
+// @harness h15d_memmove_shared_up8_off5 tier=quick props=C15,C02
+// @bounds from=5, to=13 (same misalignment 5), ∀ count ≤ 11
+// @domain ∀ b∈u8^24, ∀ count≤11: memmove(AtomicBytes(buf), 5, 13, count)
+// @claim as h15d_memmove_shared_up8
+move_case!(h15d_memmove_shared_up8_off5, 5, 13, 11, false);
+// @harness h15d_memmove_shared_down8_off3 tier=quick props=C15,C02
+// @bounds from=11, to=3 (same misalignment 3, destination below the source: forward path with head), ∀ count ≤ 13
+// @domain ∀ b∈u8^24, ∀ count≤13: memmove(AtomicBytes(buf), 11, 3, count)
+// @claim as h15d_memmove_shared_up8
+move_case!(h15d_memmove_shared_down8_off3, 11, 3, 13, false);
